@@ -55,7 +55,7 @@ Qed.
 Lemma step_inv G bodies c c' :
   forallb (check G [] []) bodies = true -> I1 G c -> I2 c -> step bodies c c' -> I1 G c' /\ I2 c'.
 Proof.
-  intros WB H1 H2 St. destruct St as [i m r E Free|i m r E Free|i m r E Held|i m r E Held|i f r E|i f r E|i f r E|i f r E|i b E Ex Er Hb];
+  intros WB H1 H2 St. destruct St as [i m r E Free|i m r E Free|i m r E Held|i m r E Held|i f r E|i f r E|i f r E|i f r E|i f r E|i f r E|i b E Ex Er Hb];
     pose proof (H1 i) as C; rewrite E in C; cbn [check] in C.
   - (* Lock *)
     apply andb_true_iff in C. destruct C as [_ C]. split; [apply I1_upd; [exact H1|exact C]|].
@@ -86,6 +86,10 @@ Proof.
   - apply andb_true_iff in C. destruct C as [_ C]. split; [apply I1_upd; [exact H1|exact C]|].
     apply I2_upd_shrink; [exact H2| |]; cbn [hx hr]; auto.
   - apply andb_true_iff in C. destruct C as [_ C]. split; [apply I1_upd; [exact H1|exact C]|].
+    apply I2_upd_shrink; [exact H2| |]; cbn [hx hr]; auto.
+  - split; [apply I1_upd; [exact H1|exact C]|].
+    apply I2_upd_shrink; [exact H2| |]; cbn [hx hr]; auto.
+  - split; [apply I1_upd; [exact H1|exact C]|].
     apply I2_upd_shrink; [exact H2| |]; cbn [hx hr]; auto.
   - split; [apply I1_upd; [exact H1|exact C]|].
     apply I2_upd_shrink; [exact H2| |]; cbn [hx hr]; auto.
@@ -424,3 +428,72 @@ Section RWP.
     intros [r' Hj]. destruct Wi as [r Hi']. eapply (k_wone _ Kc); eauto.
   Qed.
 End RWP.
+
+(* ---------- a blocking send under the lock vs. after the unlock ---------- *)
+Lemma qsteps_app ul cap a b c : qsteps ul cap a b -> qsteps ul cap b c -> qsteps ul cap a c.
+Proof.
+  intros P Q. induction Q as [s|s s' s'' Q1 IH Q2]; [exact P|].
+  eapply qsteps_trans; [apply IH; exact P|exact Q2].
+Qed.
+
+Lemma q_one_round cap q : q < cap ->
+  qsteps true cap (mk_qstate HP0 C0 q) (mk_qstate HP0 C0 (S q)).
+Proof.
+  intros Hq. eapply qsteps_trans; [eapply qsteps_trans; [eapply qsteps_trans; [apply qsteps_refl|]|]|].
+  - apply QLock. discriminate.
+  - apply QSendU; [reflexivity|exact Hq].
+  - apply QUnlockU. reflexivity.
+Qed.
+
+Lemma q_fill cap n q : q + n = cap -> qsteps true cap (mk_qstate HP0 C0 q) (mk_qstate HP0 C0 cap).
+Proof.
+  revert q. induction n as [|n IH]; intros q E.
+  - replace q with cap by lia. apply qsteps_refl.
+  - eapply qsteps_app; [apply q_one_round; lia|]. apply IH. lia.
+Qed.
+
+(* with the send under the lock, the handler and the consumer loop reach a state in which the
+   handler waits for room in the full queue while holding the mutex and the consumer waits for
+   the mutex: nothing can move any more *)
+Lemma send_under_lock_deadlocks cap : 1 <= cap ->
+  exists s, qsteps true cap (mk_qstate HP0 C0 0) s /\ qstuck true cap s /\
+            qh s = HP1 /\ qc s = C1 /\ qq s = cap.
+Proof.
+  intros Hc. destruct cap as [|c]; [lia|]. exists (mk_qstate HP1 C1 (S c)). split; [|split; [|auto]].
+  - eapply qsteps_app; [apply (q_fill (S c) (S c) 0); lia|].
+    eapply qsteps_trans; [eapply qsteps_trans; [eapply qsteps_trans; [eapply qsteps_trans; [eapply qsteps_trans; [apply qsteps_refl|]|]|]|]|].
+    + apply QRecv.
+    + apply QLock. discriminate.
+    + apply QSendU; [reflexivity|lia].
+    + apply QUnlockU. reflexivity.
+    + apply QLock. discriminate.
+  - intros s' St. inversion St; subst; try discriminate; try lia.
+Qed.
+
+Lemma q_bound_step ul cap s s' : qq s <= cap -> qstep ul cap s s' -> qq s' <= cap.
+Proof. intros H St. destruct St; cbn in *; lia. Qed.
+
+Lemma q_bound_steps ul cap s s' : qq s <= cap -> qsteps ul cap s s' -> qq s' <= cap.
+Proof.
+  intros B St. induction St as [s|s s' s'' St1 IH St2]; [exact B|].
+  eapply q_bound_step; [apply IH; exact B|exact St2].
+Qed.
+
+(* with the send after the unlock (the order in announcer.go) every reachable state can move *)
+Lemma send_after_unlock_progress cap s : 1 <= cap ->
+  qsteps false cap (mk_qstate HP0 C0 0) s -> exists s', qstep false cap s s'.
+Proof.
+  intros Hc St. assert (B : qq s <= cap) by (eapply q_bound_steps; [|exact St]; cbn; lia).
+  destruct s as [h c q]. cbn in B. destruct h.
+  - destruct c.
+    + eexists. apply QLock. discriminate.
+    + eexists. apply QLock. discriminate.
+    + eexists. apply QRUnlock.
+  - eexists. apply QUnlockA. reflexivity.
+  - destruct (Nat.eq_dec q cap) as [->|Ne].
+    + destruct c.
+      * destruct cap as [|c']; [lia|]. eexists. apply QRecv.
+      * eexists. apply QRLock. reflexivity.
+      * eexists. apply QRUnlock.
+    + eexists. apply QSendA; [reflexivity|lia].
+Qed.
